@@ -154,6 +154,62 @@ def mk_set_order(name, args, params=None):
     return body
 
 
+HASH_PATTERNS = {'creation-order': lambda i: i, 'reversed': lambda i: 100000 - i, 'rotated': lambda i: (i + 3) % 7 + 7 * (i // 7),
+                 'interleaved': lambda i: (i % 2) * 1000 + i // 2, 'multiples-of-8': lambda i: 8 * i, 'multiples-of-32-descending': lambda i: 32 * (5000 - i)}
+
+
+def mk_group_hash_values(name, twin=None, params=None, args=()):
+    """'whatever ... object addresses are': Group.__hash__ is the object's address, so the iteration order of every set (and
+    set comprehension, dict) of groups follows the addresses.  The addresses are replaced by chosen integers -- in creation
+    order, reversed, rotated, interleaved, colliding in the low bits -- through the real Group.__hash__ slot (no instrumentation:
+    the real built-in sets iterate in the order these values give): the results are the same for every choice"""
+    def body(ctx):
+        import propka.group as G
+        if name == '3SGB-subset':
+            # the repository's own test structure (input only), ASP E 175 renumbered 102A: it follows ASP E 102 under the same label,
+            # and both take part in iterative interactions with other residues
+            txt = open(os.path.join(H.REPO, 'tests', 'pdb', '3SGB-subset.pdb')).read()
+            txt = ''.join((l[:22] + ' 102A' + l[27:] + '\n') if (l[:6] in ('ATOM  ', 'HETATM') and l[21:27] == 'E 175 ') else (l + '\n') for l in txt.split('\n') if l)
+        else:
+            txt = M.text(name)
+        if twin == 'B->A':
+            # the residues of chain B become insertion-coded residues of chain A (25 B -> 25A A): same-type twins that share a label
+            txt = ''.join((l[:21] + 'A' + l[22:26] + 'A' + l[27:] + '\n') if (l.startswith('ATOM') and l[21] == 'B') else (l + '\n') for l in txt.split('\n') if l)
+        elif twin:
+            src, dst = twin
+            txt = ''.join((l[:22] + '%4d' % dst + 'A' + l[27:] + '\n') if (l.startswith('ATOM') and int(l[22:26]) == src) else (l + '\n') for l in txt.split('\n') if l)
+        def run_with(pattern):
+            f = HASH_PATTERNS[pattern]
+            counter = [0]
+            old = G.Group.__hash__
+
+            def patched(self):
+                r = self.__dict__.get('_address_rank')
+                if r is None:
+                    r = self.__dict__['_address_rank'] = counter[0]
+                    counter[0] += 1
+                return f(r)
+            G.Group.__hash__ = patched
+            try:
+                return snapshot(M.run(txt, args=list(args), params=params)), counter[0]
+            finally:
+                G.Group.__hash__ = old
+        # the reference is the run with the addresses in creation order (a run with the real addresses is not a fixed reference
+        # if the code under test does depend on them)
+        key = ('hash', name, twin, tuple(args), bool(params))
+        if key not in _BASE:
+            _BASE[key] = run_with('creation-order')[0]
+        base = _BASE[key]
+        pattern = ctx.choice('hash_values', [p_ for p_ in sorted(HASH_PATTERNS) if p_ != 'creation-order'])
+        got, hashed = run_with(pattern)
+        counter = [hashed]
+        ctx.notes['groups hashed in the patched run'] = counter[0]     # (0 where the unchanged code builds no set or dict of groups)
+        ctx.claim('values-independent-of-group-addresses', got['values'] == base['values'],
+                  detail='differs: %r' % ([x for x in got['values'] if x not in base['values']][:3],))
+        ctx.claim('text-independent-of-group-addresses', got['summary'] == base['summary'] and got['determinants'] == base['determinants'])
+    return body
+
+
 HISTORIES = [
     ('tri_ASP', []), ('pep8', ['-d']), ('lig_MTX', []), ('pair_GLU_ARG_TYR', ['--protonate-all']), ('tri_HIS', ['-k']),
     ('pair_ASP_ASP', ['-c', 'B']), ('pair_LYS_ASP', ['-i', 'A:43']), ('unknown-element', []), ('other-parameters', []),
@@ -547,6 +603,14 @@ def obligations(tier):
                               shims=['set() in propka.conformation_container -> explorer-ordered set'],
                               claim_doc='reported values and the result text are the same for every iteration order', max_paths=100000, shards=8, wall_s=170,
                               stop_on_violation=False))
+    for name, twin, params, args in ([('3SGB-subset', None, None, ()), ('pair_ASP_ASP', 'B->A', M.BURIED, ()), ('pep8', (30, 29), M.BURIED, ('-d',)), ('complex_MTX2', None, M.BURIED, ())] if tier == 'quick' else
+                                     [('3SGB-subset', None, None, ()), ('3SGB-subset', None, None, ('-d',)), ('pair_ASP_ASP', 'B->A', M.BURIED, ()), ('pair_ASP_ASP', 'B->A', M.COUPLED, ('-d',)), ('pair_ASP_ARG', (30, 29), M.BURIED, ()), ('pep8', (30, 29), M.BURIED, ('-d',)), ('complex_MTX2', None, M.BURIED, ()), ('pair_ASP_ASP', None, M.COUPLED, ('-d',)),
+                                      ('pair_GLU_ARG_TYR', None, M.BURIED, ()), ('pep8', (30, 29), M.COUPLED, ('-d',)), ('complex_ZN', None, M.BURIED, ())]):
+        obs.append(Obligation('O1-group-hash-values[%s%s%s]' % (name, (',chain B as insertion-coded residues of chain A' if twin == 'B->A' else ',%d->%dA' % twin) if twin else '', ',' + ' '.join(args) if args else ''), mk_group_hash_values(name, twin, params, args),
+                              code=['propka/group.py:Group.__hash__', 'propka/iterative.py:add_determinants', 'propka/conformation_container.py:ConformationContainer.find_covalently_coupled_groups',
+                                    'propka/coupled_groups.py:NonCovalentlyCoupledGroups.identify_non_covalently_coupled_groups', 'propka/run.py:single (whole pipeline)'],
+                              bounds='structure %s%s (burial switched on%s in the micro-structures; 3SGB-subset: the test structure with ASP E 175 renumbered 102A, shipped parameters); Group.__hash__ returns integers chosen by 6 patterns instead of the address' % (name, (' with chain B renamed to insertion-coded residues of chain A (same-type residues share a label)' if twin == 'B->A' else ' with residue %d renumbered %dA (two residues share a label)' % twin) if twin else '', ', coupling thresholds relaxed' if params is M.COUPLED else ''),
+                              kind='table-check', claim_doc='reported values and the result text are the same for every pattern (reference: creation order)', max_paths=50))
     obs.append(Obligation('O2-history-independence', o_history,
                           code=['propka/group.py:PROTONATOR', 'propka/coupled_groups.py:NCCG', 'propka/protonate.py:Protonate.valence_electrons', 'propka/atom.py:Atom (class defaults)',
                                 'propka/lib.py:Options (class defaults)', 'propka/ligand.py:assign_sybyl_type', 'propka/run.py:single'],
